@@ -35,6 +35,9 @@ type BulkPut struct {
 	Key  string `json:"key"`
 	Fill byte   `json:"fill"`
 	N    int    `json:"n"`
+	// Seq > 0: consecutive bulk puts with the same Seq form ONE log entry - a SEQUENCE command carrying a leader index, the shape in
+	// which a follower receives replicated leader commands
+	Seq int `json:"seq,omitempty"`
 }
 
 // expanded materialises the symbolic bulk puts into command bytes.
@@ -51,8 +54,21 @@ func (c Case) expanded() Case {
 	for i, s := range c.Steps {
 		if len(s.Bulk) > 0 {
 			var cmds [][]byte
-			for _, b := range s.Bulk {
-				cmds = append(cmds, marshal(&regattapb.Command{Table: []byte("t"), Type: regattapb.Command_PUT, Kv: &regattapb.KeyValue{Key: []byte(b.Key), Value: bytes.Repeat([]byte{b.Fill}, b.N)}}))
+			for j := 0; j < len(s.Bulk); j++ {
+				b := s.Bulk[j]
+				put := &regattapb.Command{Table: []byte("t"), Type: regattapb.Command_PUT, Kv: &regattapb.KeyValue{Key: []byte(b.Key), Value: bytes.Repeat([]byte{b.Fill}, b.N)}}
+				if b.Seq == 0 {
+					cmds = append(cmds, marshal(put))
+					continue
+				}
+				li := uint64(1000 + b.Seq)
+				seq := &regattapb.Command{Table: []byte("t"), Type: regattapb.Command_SEQUENCE, LeaderIndex: &li, Sequence: []*regattapb.Command{put}}
+				for j+1 < len(s.Bulk) && s.Bulk[j+1].Seq == b.Seq {
+					j++
+					nb := s.Bulk[j]
+					seq.Sequence = append(seq.Sequence, &regattapb.Command{Table: []byte("t"), Type: regattapb.Command_PUT, Kv: &regattapb.KeyValue{Key: []byte(nb.Key), Value: bytes.Repeat([]byte{nb.Fill}, nb.N)}})
+				}
+				cmds = append(cmds, marshal(seq))
 			}
 			s.Cmds = append(cmds, s.Cmds...)
 			s.Bulk = nil
@@ -532,6 +548,17 @@ func genBig(t *rapid.T) Case {
 	}
 	big := Step{Op: "apply"}
 	total := 0
+	if rapid.Bool().Draw(t, "replicated") {
+		// the shape of a follower catching up: SEQUENCE entries of 2-4 sizeable puts each, every entry with its leader index
+		for i, sq := 0, 1; total < 18*1024*1024; sq++ {
+			for j, m := 0, rapid.IntRange(2, 4).Draw(t, "seqlen"); j < m; j++ {
+				n := rapid.SampledFrom([]int{300 * 1024, 700 * 1024, 1024 * 1024}).Draw(t, "seqsize")
+				total += n
+				big.Bulk = append(big.Bulk, BulkPut{Key: fmt.Sprintf("big%02d", i), Fill: byte('a' + i%26), N: n, Seq: sq})
+				i++
+			}
+		}
+	}
 	for i := 0; total < 17*1024*1024; i++ {
 		n := rapid.SampledFrom([]int{1024 * 1024, 1536 * 1024, 2 * 1024 * 1024}).Draw(t, "bigsize")
 		total += n
